@@ -189,7 +189,7 @@ Definition browse (fs : fsys) (hide pages : list bytes) (confs : list bconf)
       else
         let u := match req with [] => [SLASH] | _ => req end in
         if negb (ends_with_slash u)
-        then Redirect 301 (http_redirect req (escape_path (u ++ [SLASH])))
+        then Redirect 301 (http_redirect req (escape_path (trim_dslash u ++ [SLASH])))
         else
           let dirp := jail req in
           let kids := children fs dirp in
